@@ -10,6 +10,9 @@ import (
 	"io"
 	"log/slog"
 	"net"
+	"regexp"
+	"runtime"
+	"sort"
 	"strings"
 	"sync"
 
@@ -35,10 +38,11 @@ const (
 	kReplCtx
 	kFailAfter
 	kRewrite
+	kHedged // calls next twice CONCURRENTLY (a hedged request): both invocations must run all inner stages
 	nKinds
 )
 
-var kindNames = []string{"pass", "next-twice", "next-thrice", "short-circuit-response", "short-circuit-error", "replace-message", "replace-context", "fail-after-next", "rewrite-response"}
+var kindNames = []string{"pass", "next-twice", "next-thrice", "short-circuit-response", "short-circuit-error", "replace-message", "replace-context", "fail-after-next", "rewrite-response", "next-twice-concurrently"}
 
 func progString(p []kind) string {
 	var s []string
@@ -90,7 +94,7 @@ func (in *interp) run(i int, ctx, msg string) (res string, err string) {
 	switch in.prog[i] {
 	case kPass:
 		res, err = next(ctx, msg)
-	case kTwice:
+	case kTwice, kHedged:
 		next(ctx, msg)
 		res, err = next(ctx, msg)
 	case kThrice:
@@ -139,6 +143,7 @@ type ops[M any, R any] struct {
 func stage[M any, R any](k kind, i int, t *trace, o ops[M, R]) func(next func(context.Context, M) (R, error), ctx context.Context, m M) (R, error) {
 	return func(next func(context.Context, M) (R, error), ctx context.Context, m M) (res R, err error) {
 		t.log("enter s%d msg=%s ctx=%s", i, o.idOf(m), marker(ctx))
+		runtime.Gosched()
 		defer func() {
 			rid, es := "", ""
 			if err != nil {
@@ -160,6 +165,19 @@ func stage[M any, R any](k kind, i int, t *trace, o ops[M, R]) func(next func(co
 			next(ctx, m)
 			next(ctx, m)
 			return next(ctx, m)
+		case kHedged:
+			started := make(chan struct{})
+			done := make(chan struct{})
+			go func() {
+				defer close(done)
+				close(started)
+				next(ctx, m)
+			}()
+			<-started
+			runtime.Gosched()
+			r2, e2 := next(ctx, m)
+			<-done
+			return r2, e2
 		case kScResp:
 			return o.mkResp(m, fmt.Sprintf("sc%d", i)), nil
 		case kScErr:
@@ -362,6 +380,22 @@ var chains = []struct {
 	{"server-batch-item", itemChain, true},
 }
 
+var numRe = regexp.MustCompile(`#\d+`)
+
+func stripNum(s string) string { return numRe.ReplaceAllString(s, "#n") }
+
+// normalise turns a trace into a sorted multiset with core-call numbers removed; exit events of a
+// hedged stage carry the result of whichever invocation finished last and are reduced to their stage.
+func normalise(ev []string) []string {
+	out := make([]string, 0, len(ev))
+	for _, e := range ev {
+		e = stripNum(e)
+		out = append(out, e)
+	}
+	sort.Strings(out)
+	return out
+}
+
 func progOf(i, maxLen int) ([]kind, bool) {
 	for n := 0; n <= maxLen; n++ {
 		total := 1
@@ -418,7 +452,21 @@ func runProgram(c *core.Ctx, chainIdx int, prog []kind, concurrent int) {
 		t.mu.Lock()
 		got := append([]string{}, t.events...)
 		t.mu.Unlock()
-		if strings.Join(got, "\n") != strings.Join(want.events, "\n") {
+		hedged := false
+		for _, k := range prog {
+			if k == kHedged {
+				hedged = true
+			}
+		}
+		wantEv := want.events
+		if hedged {
+			// concurrent invocations: the order of events and the numbering of core calls are not
+			// determined; the MULTISET of events (numbers stripped) is
+			got, wantEv = normalise(got), normalise(wantEv)
+			res, wres = stripNum(res), stripNum(wres)
+			c.Count("hedged_programs_run", 1)
+		}
+		if strings.Join(got, "\n") != strings.Join(wantEv, "\n") {
 			cls := "trace-differs"
 			for _, k := range prog {
 				if k == kTwice || k == kThrice {
@@ -432,7 +480,7 @@ func runProgram(c *core.Ctx, chainIdx int, prog []kind, concurrent int) {
 					}
 				}
 			}
-			c.Violation("C19:"+ch.name+":"+cls, fmt.Sprintf("recorded trace differs from the reference semantics for %s", label), map[string]any{"recorded": got, "reference": want.events})
+			c.Violation("C19:"+ch.name+":"+cls, fmt.Sprintf("recorded trace differs from the reference semantics for %s", label), map[string]any{"recorded": got, "reference": wantEv})
 			return
 		}
 		if (werr != "") != (errS != "") || (werr == "" && wres != res) {
@@ -461,10 +509,10 @@ func Spec() *core.Spec {
 		ID:    "C19",
 		Level: "exploration",
 		Race:  true,
-		Rule: "all programs of length 0..3 (quick) / 0..4 (thorough) over 9 stage kinds {pass, call next 2x, 3x, short-circuit with response, short-circuit with error, replace message, replace context, fail after next, rewrite response} " +
+		Rule: "all programs of length 0..3 (quick) / 0..4 (thorough) over 10 stage kinds {pass, call next 2x, 3x, call next twice concurrently (hedged; judged on the multiset of events), short-circuit with response, short-circuit with error, replace message, replace context, fail after next, rewrite response} " +
 			"for the client chain (scripted server as transport), the server message chain and the server batch-item chain; every program run once alone and once from 16 goroutines sharing the chain (race detector on); " +
 			"the recorded enter/core/exit trace of every request must equal the trace of a reference interpreter, event for event. distinct = distinct (chain, program)",
-		Required: []string{"programs_run.client", "programs_run.server-message", "programs_run.server-batch-item", "concurrent_runs", "events"},
+		Required: []string{"programs_run.client", "programs_run.server-message", "programs_run.server-batch-item", "concurrent_runs", "events", "hedged_programs_run"},
 		Families: []core.Family{
 			{Name: "programs", Exhaustive: true, N: func(tier string) int {
 				if tier == core.Thorough {
